@@ -712,7 +712,12 @@ impl ElementRaw {
                 })?;
                 if src_parent.downgrade() == self_weak {
                     // move new_element to a different position within the current element
-                    self.move_element_position(move_element, position)
+                    // the element itself occupies one position of the range, so the last valid position is end_pos - 1
+                    if position < end_pos {
+                        self.move_element_position(move_element, position)
+                    } else {
+                        Err(AutosarDataError::InvalidPosition)
+                    }
                 } else {
                     // move the element within the same model
                     self.move_element_local(self_weak, move_element, position, model, version)
